@@ -311,11 +311,11 @@ theorem world_txs_no_flash_survives (txs : List (List TOp)) (w : WState)
     check on the account's whole portfolio with the flag already cleared, signed by the account's authority. -/
 theorem world_tx_every_end_enforces_health {w w' : WState} {tx : List TOp} (h : w.runTx tx = some w')
     {j k s : Nat} (hj : tx[j]? = some (.endFlash k s)) :
-    ∃ (wj : WState) (a : AcctV), wj.accts[k]? = some a ∧ a.authority = s ∧
+    ∃ (wj : WState) (a : AcctV), w.before tx j = some wj ∧ wj.accts[k]? = some a ∧ a.authority = s ∧
       ∃ ps, portfolio (wj.actx a s) a.slots noBank.books = .ok ps ∧ Risk.checkInitHealth ps = .ok () := by
-  obtain ⟨wj, a, f, ha, hf⟩ := runFrom_ends tx tx 0 w w' rfl h j k s (Nat.zero_le _) hj
+  obtain ⟨wj, a, f, hbj, ha, hf⟩ := tx_endflash_ran h hj
   obtain ⟨h1, _, _, _, _, _, ps, hps, hh⟩ := world_end_flashloan_enforces_health hf
-  exact ⟨wj, a, ha, h1, ps, hps, hh⟩
+  exact ⟨wj, a, hbj, ha, h1, ps, hps, hh⟩
 
 theorem initHealth_unflagged {c : Ctx} {slots : List Account.Slot} {books : Bank.Bank} (hf : flag c ACCOUNT_IN_FLASHLOAN = false)
     (h : initHealth c slots books = .ok ()) : ∃ ps, portfolio c slots books = .ok ps ∧ Risk.checkInitHealth ps = .ok () := by
@@ -335,15 +335,15 @@ theorem world_tx_borrow_is_backed {w w' : WState} {tx : List TOp} (h : w.runTx t
     (∃ (wi : WState) (a : AcctV) (b : WBank) (o : Out) (ps : List Risk.Pos), w.before tx i = some wi ∧ wi.accts[ai]? = some a ∧ wi.banks[bi]? = some b ∧
         borrow (wi.ctx a b signer b.v.liquidityVault 0) amount = .ok o ∧
         portfolio (wi.ctx a b signer b.v.liquidityVault 0) o.slots o.books = .ok ps ∧ Risk.checkInitHealth ps = .ok ()) ∨
-    (∃ (j s : Nat) (wj : WState) (a : AcctV) (ps : List Risk.Pos), i < j ∧ tx[j]? = some (.endFlash ai s) ∧ wj.accts[ai]? = some a ∧
+    (∃ (j s : Nat) (wj : WState) (a : AcctV) (ps : List Risk.Pos), i < j ∧ tx[j]? = some (.endFlash ai s) ∧ w.before tx j = some wj ∧ wj.accts[ai]? = some a ∧
         portfolio (wj.actx a s) a.slots noBank.books = .ok ps ∧ Risk.checkInitHealth ps = .ok ()) := by
-  rcases tx_borrow_checked h h0 hi with ⟨wi, a, b, o, hbi, ha, hb, ho, hfa, hh⟩ | ⟨j, s, wj, a, f, hij, hj, ha, hf⟩
+  rcases tx_borrow_checked h h0 hi with ⟨wi, a, b, o, hbi, ha, hb, ho, hfa, hh⟩ | ⟨j, s, wj, a, f, hij, hj, hbj, ha, hf⟩
   · left
     obtain ⟨ps, hps, hc⟩ := initHealth_unflagged (c := wi.ctx a b signer b.v.liquidityVault 0) hfa hh
     exact ⟨wi, a, b, o, ps, hbi, ha, hb, ho, hps, hc⟩
   · right
     obtain ⟨_, _, _, _, _, _, ps, hps, hc⟩ := world_end_flashloan_enforces_health hf
-    exact ⟨j, s, wj, a, ps, hij, hj, ha, hps, hc⟩
+    exact ⟨j, s, wj, a, ps, hij, hj, hbj, ha, hps, hc⟩
 
 /-- **world_tx_liquidator_is_backed**: every classic liquidation of a committed transaction (started with nobody in a flash loan)
     leaves the LIQUIDATOR backed by a passed initial-margin check: its own, on the liquidator's portfolio as the liquidation left
@@ -358,7 +358,7 @@ theorem world_tx_liquidator_is_backed {w w' : WState} {tx : List TOp} (h : w.run
       hasFlag le.flags ACCOUNT_IN_FLASHLOAN = false ∧
       ((∃ qs, portfolio2 (wi.liqCtx lq le ab lb signer).risk o.lqSlots ab.v.key o.assetBooks lb.v.key o.liabBooks = .ok qs ∧
           Risk.checkInitHealth qs = .ok ()) ∨
-       (∃ (j s : Nat) (wj : WState) (a : AcctV) (ps : List Risk.Pos), i < j ∧ tx[j]? = some (.endFlash qi s) ∧ wj.accts[qi]? = some a ∧
+       (∃ (j s : Nat) (wj : WState) (a : AcctV) (ps : List Risk.Pos), i < j ∧ tx[j]? = some (.endFlash qi s) ∧ w.before tx j = some wj ∧ wj.accts[qi]? = some a ∧
           portfolio (wj.actx a s) a.slots noBank.books = .ok ps ∧ Risk.checkInitHealth ps = .ok ())) := by
   obtain ⟨wi, lq, le, ab, lb, o, hbi, hq, he, hab, hlb, ho, hfl⟩ := tx_liquidate_at h h0 hi
   have hspec := Mfi.Props.C05.world_liquidate_spec ho
@@ -366,9 +366,9 @@ theorem world_tx_liquidator_is_backed {w w' : WState} {tx : List TOp} (h : w.run
   refine ⟨wi, lq, le, ab, lb, o, hbi, hq, he, hab, hlb, ho, hle, ?_⟩
   rcases hq' with hflash | ⟨qs, hqs, hc⟩
   · right
-    obtain ⟨j, s, wj, a', f, hij, hj, ha', hf⟩ := hfl hflash
+    obtain ⟨j, s, wj, a', f, hij, hj, hbj, ha', hf⟩ := hfl hflash
     obtain ⟨_, _, _, _, _, _, ps2, hps2, hc2⟩ := world_end_flashloan_enforces_health hf
-    exact ⟨j, s, wj, a', ps2, hij, hj, ha', hps2, hc2⟩
+    exact ⟨j, s, wj, a', ps2, hij, hj, hbj, ha', hps2, hc2⟩
   · left
     exact ⟨qs, hqs, hc⟩
 
@@ -401,9 +401,9 @@ theorem world_tx_withdraw_is_backed {w w' : WState} {tx : List TOp} (h : w.runTx
         withdraw (wi.ctx a b signer b.v.liquidityVault vault) amount all = .ok o ∧
         (hasFlag a.flags ACCOUNT_IN_RECEIVERSHIP = true ∨
           ∃ ps, portfolio (wi.ctx a b signer b.v.liquidityVault vault) o.slots o.books = .ok ps ∧ Risk.checkInitHealth ps = .ok ())) ∨
-    (∃ (j s : Nat) (wj : WState) (a : AcctV) (ps : List Risk.Pos), i < j ∧ tx[j]? = some (.endFlash ai s) ∧ wj.accts[ai]? = some a ∧
+    (∃ (j s : Nat) (wj : WState) (a : AcctV) (ps : List Risk.Pos), i < j ∧ tx[j]? = some (.endFlash ai s) ∧ w.before tx j = some wj ∧ wj.accts[ai]? = some a ∧
         portfolio (wj.actx a s) a.slots noBank.books = .ok ps ∧ Risk.checkInitHealth ps = .ok ()) := by
-  rcases tx_withdraw_checked h h0 hi with ⟨wi, a, b, o, hbi, ha, hb, ho, hfa, hh⟩ | ⟨j, s, wj, a, f, hij, hj, ha, hf⟩
+  rcases tx_withdraw_checked h h0 hi with ⟨wi, a, b, o, hbi, ha, hb, ho, hfa, hh⟩ | ⟨j, s, wj, a, f, hij, hj, hbj, ha, hf⟩
   · left
     refine ⟨wi, a, b, o, hbi, ha, hb, ho, ?_⟩
     unfold withdrawHealth at hh
@@ -416,7 +416,7 @@ theorem world_tx_withdraw_is_backed {w w' : WState} {tx : List TOp} (h : w.runTx
       exact initHealth_unflagged (c := wi.ctx a b signer b.v.liquidityVault vault) hfa hh
   · right
     obtain ⟨_, _, _, _, _, _, ps, hps, hc⟩ := world_end_flashloan_enforces_health hf
-    exact ⟨j, s, wj, a, ps, hij, hj, ha, hps, hc⟩
+    exact ⟨j, s, wj, a, ps, hij, hj, hbj, ha, hps, hc⟩
 
 /-- a small world: one account without positions, no banks -/
 def demoWorld : WState :=
